@@ -2756,24 +2756,24 @@ theorem mkBest_spec (r : Result) (lc pc fc : List Col) (n : Option Nat) : ∀ (g
                     subst h
                     simp [ih rest h7]
 
-theorem levelScores_mem (cell : List BEnt) (c : Cand) (h : c ∈ levelScores cell) :
+theorem levelScores_memW (lv : List BEnt → List Key) (cell : List BEnt) (c : Cand) (h : c ∈ levelScoresW lv cell) :
     c.2.2 = (cell.filter (fun e => e.f = c.1)).map (·.t) := by
-  simp only [levelScores, List.mem_map] at h
+  simp only [levelScoresW, List.mem_map] at h
   obtain ⟨f, _, rfl⟩ := h
   rfl
 
 /-- an evaluation survives the loop iff its `full_l` level is the best level of its cell -/
-theorem kept_iff (es : List BEnt) (hnd : (es.map (·.t)).Nodup) (e : BEnt) (he : e ∈ es) :
-    (pickBest (levelScores (cellOfEnt es e)) none [] []).1.contains e.t =
-      decide ((bestLevelS (levelScores (cellOfEnt es e))).map (·.1) = some e.f) := by
+theorem kept_iffW (lv : List BEnt → List Key) (es : List BEnt) (hnd : (es.map (·.t)).Nodup) (e : BEnt) (he : e ∈ es) :
+    (pickBest (levelScoresW lv (cellOfEnt es e)) none [] []).1.contains e.t =
+      decide ((bestLevelS (levelScoresW lv (cellOfEnt es e))).map (·.1) = some e.f) := by
   have hinj : ∀ a ∈ es, ∀ b ∈ es, a.t = b.t → a = b := List.inj_on_of_nodup_map hnd
   have hecell : e ∈ cellOfEnt es e := by simp [cellOfEnt, he]
   rw [pickBest_eq_spec]
-  cases hb : bestLevelS (levelScores (cellOfEnt es e)) with
+  cases hb : bestLevelS (levelScoresW lv (cellOfEnt es e)) with
   | none => simp
   | some c =>
     have hc := (bestLevelS_mem _ c hb).1
-    have hids := levelScores_mem _ c hc
+    have hids := levelScores_memW lv _ c hc
     simp only [Option.map_some, Option.getD_some, Option.some.injEq]
     rw [hids, List.contains_eq_mem]
     congr 1
@@ -2791,25 +2791,25 @@ theorem kept_iff (es : List BEnt) (hnd : (es.map (·.t)).Nodup) (e : BEnt) (he :
     · intro hf
       exact List.mem_map.mpr ⟨e, List.mem_filter.mpr ⟨hecell, by simpa using hf.symm⟩, rfl⟩
 
-theorem keptByBest_eq (es : List BEnt) (hnd : (es.map (·.t)).Nodup) : keptByBest es = keptByBestS es := by
-  unfold keptByBest keptByBestS
+theorem keptByBest_eqW (lv : List BEnt → List Key) (es : List BEnt) (hnd : (es.map (·.t)).Nodup) : keptByBestW lv es = keptByBestSW lv es := by
+  unfold keptByBestW keptByBestSW
   congr 1
   apply List.filter_congr
   intro e he
-  rw [kept_iff es hnd e he]
+  rw [kept_iffW lv es hnd e he]
 
-theorem droppedByBest_eq (es : List BEnt) (hnd : (es.map (·.t)).Nodup) :
-    droppedByBest es = (es.filter (fun e => !decide ((bestLevelS (levelScores (cellOfEnt es e))).map (·.1) = some e.f))).map (·.t) := by
-  unfold droppedByBest
+theorem droppedByBest_eqW (lv : List BEnt → List Key) (es : List BEnt) (hnd : (es.map (·.t)).Nodup) :
+    droppedByBestW lv es = (es.filter (fun e => !decide ((bestLevelS (levelScoresW lv (cellOfEnt es e))).map (·.1) = some e.f))).map (·.t) := by
+  unfold droppedByBestW
   congr 1
   apply List.filter_congr
   intro e he
-  rw [kept_iff es hnd e he]
+  rw [kept_iffW lv es hnd e he]
 
 /-- `where_best` is its specification on well-formed Results -/
-theorem filterBest_eq_spec (r : Result) (lc pc : List Col) (n : Option Nat) (fl fp : List Col) (hwf : WF r) :
-    filterBest r lc pc n fl fp = whereBestS r lc pc n fl fp := by
-  unfold filterBest whereBestS
+theorem filterBest_eq_specW (lv : List BEnt → List Key) (r : Result) (lc pc : List Col) (n : Option Nat) (fl fp : List Col) (hwf : WF r) :
+    filterBestW lv r lc pc n fl fp = whereBestSW lv r lc pc n fl fp := by
+  unfold filterBestW whereBestSW
   rw [filterFin_eq_spec r none (some (fl, fp)) hwf.1 hwf.2.1 hwf.2.2.1 hwf.2.2.2 (by intro h; cases h)]
   cases hfin : whereFinS r none (some (fl, fp)) with
   | error x => rfl
@@ -2835,27 +2835,27 @@ theorem filterBest_eq_spec (r : Result) (lc pc : List Col) (n : Option Nat) (fl 
         obtain ⟨g, hg, hgt⟩ := List.mem_map.mp this
         obtain ⟨row, hrow, hrt⟩ := mem_runs_triple _ g hg
         exact ⟨row, hrow, by rw [hrt, hgt]⟩
-      have hrm := removeRows_eq fin.ints (droppedByBest es) 0 hs
-        (by rw [droppedByBest_eq es hnd]; exact (List.filter_sublist.map _).nodup hnd)
+      have hrm := removeRows_eq fin.ints (droppedByBestW lv es) 0 hs
+        (by rw [droppedByBest_eqW lv es hnd]; exact (List.filter_sublist.map _).nodup hnd)
         (by
           intro t ht
-          rw [droppedByBest_eq es hnd] at ht
+          rw [droppedByBest_eqW lv es hnd] at ht
           obtain ⟨e, he, rfl⟩ := List.mem_map.mp ht
           obtain ⟨row, hrow, hrt⟩ := hpres e (List.mem_filter.mp he).1
           exact List.mem_map.mpr ⟨row, hrow, hrt⟩) (Or.inl rfl)
       rw [hrm]
       simp only
-      have hfilt : fin.ints.filter (fun row => !(droppedByBest es).contains row.triple) =
-          fin.ints.filter (fun row => (keptByBestS es).contains row.triple) := by
+      have hfilt : fin.ints.filter (fun row => !(droppedByBestW lv es).contains row.triple) =
+          fin.ints.filter (fun row => (keptByBestSW lv es).contains row.triple) := by
         apply List.filter_congr
         intro row hrow
         obtain ⟨e, he, het⟩ := hrowes row hrow
-        rw [← het, droppedByBest_eq es hnd]
-        unfold keptByBestS
-        by_cases hb : (bestLevelS (levelScores (cellOfEnt es e))).map (·.1) = some e.f
-        · have h1 : e.t ∈ (es.filter (fun e => decide ((bestLevelS (levelScores (cellOfEnt es e))).map (·.1) = some e.f))).map (·.t) :=
+        rw [← het, droppedByBest_eqW lv es hnd]
+        unfold keptByBestSW
+        by_cases hb : (bestLevelS (levelScoresW lv (cellOfEnt es e))).map (·.1) = some e.f
+        · have h1 : e.t ∈ (es.filter (fun e => decide ((bestLevelS (levelScoresW lv (cellOfEnt es e))).map (·.1) = some e.f))).map (·.t) :=
             List.mem_map.mpr ⟨e, List.mem_filter.mpr ⟨he, by simpa using hb⟩, rfl⟩
-          have h2 : e.t ∉ (es.filter (fun e => !decide ((bestLevelS (levelScores (cellOfEnt es e))).map (·.1) = some e.f))).map (·.t) := by
+          have h2 : e.t ∉ (es.filter (fun e => !decide ((bestLevelS (levelScoresW lv (cellOfEnt es e))).map (·.1) = some e.f))).map (·.t) := by
             intro hc
             obtain ⟨e', he', het'⟩ := List.mem_map.mp hc
             rw [List.mem_filter] at he'
@@ -2863,31 +2863,31 @@ theorem filterBest_eq_spec (r : Result) (lc pc : List Col) (n : Option Nat) (fl 
             subst this
             simp [hb] at he'
           simp [List.contains_eq_mem, h1, h2]
-        · have h1 : e.t ∉ (es.filter (fun e => decide ((bestLevelS (levelScores (cellOfEnt es e))).map (·.1) = some e.f))).map (·.t) := by
+        · have h1 : e.t ∉ (es.filter (fun e => decide ((bestLevelS (levelScoresW lv (cellOfEnt es e))).map (·.1) = some e.f))).map (·.t) := by
             intro hc
             obtain ⟨e', he', het'⟩ := List.mem_map.mp hc
             rw [List.mem_filter] at he'
             have := hinj e' he'.1 e he het'
             subst this
             simp [hb] at he'
-          have h2 : e.t ∈ (es.filter (fun e => !decide ((bestLevelS (levelScores (cellOfEnt es e))).map (·.1) = some e.f))).map (·.t) :=
+          have h2 : e.t ∈ (es.filter (fun e => !decide ((bestLevelS (levelScoresW lv (cellOfEnt es e))).map (·.1) = some e.f))).map (·.t) :=
             List.mem_map.mpr ⟨e, List.mem_filter.mpr ⟨he, by simpa using hb⟩, rfl⟩
           simp [List.contains_eq_mem, h1, h2]
-      rw [hfilt, keptByBest_eq es hnd]
-      have hT : ∀ t, t ∈ keptByBestS es ↔ ∃ row ∈ fin.ints.filter (fun row => (keptByBestS es).contains row.triple), row.triple = t := by
+      rw [hfilt, keptByBest_eqW lv es hnd]
+      have hT : ∀ t, t ∈ keptByBestSW lv es ↔ ∃ row ∈ fin.ints.filter (fun row => (keptByBestSW lv es).contains row.triple), row.triple = t := by
         intro t
         constructor
         · intro ht
           have ht' := ht
-          unfold keptByBestS at ht'
+          unfold keptByBestSW at ht'
           obtain ⟨e, he, rfl⟩ := List.mem_map.mp ht'
           obtain ⟨row, hrow, hrt⟩ := hpres e (List.mem_filter.mp he).1
           exact ⟨row, List.mem_filter.mpr ⟨hrow, by rw [hrt]; simpa using ht⟩, hrt⟩
         · rintro ⟨row, hrow, rfl⟩
           simpa using (List.mem_filter.mp hrow).2
-      have hsubT : ∀ t ∈ keptByBestS es, ∃ row ∈ fin.ints, row.triple = t := by
+      have hsubT : ∀ t ∈ keptByBestSW lv es, ∃ row ∈ fin.ints, row.triple = t := by
         intro t ht
-        unfold keptByBestS at ht
+        unfold keptByBestSW at ht
         obtain ⟨e, he, rfl⟩ := List.mem_map.mp ht
         exact hpres e (List.mem_filter.mp he).1
       rw [filterTable_kept fin.envs hu.1 _ (·.1) _ (fun t ht => by
@@ -2902,9 +2902,9 @@ theorem filterBest_eq_spec (r : Result) (lc pc : List Col) (n : Option Nat) (fl 
       rfl
 
 /-- what `where_best` must return is again well-formed and fully referenced -/
-theorem whereBestS_wf (r r' : Result) (lc pc : List Col) (n : Option Nat) (fl fp : List Col) (hwf : WF r)
-    (h : whereBestS r lc pc n fl fp = .ok r') : WF r' ∧ AllReferenced r' := by
-  unfold whereBestS at h
+theorem whereBestS_wfW (lv : List BEnt → List Key) (r r' : Result) (lc pc : List Col) (n : Option Nat) (fl fp : List Col) (hwf : WF r)
+    (h : whereBestSW lv r lc pc n fl fp = .ok r') : WF r' ∧ AllReferenced r' := by
+  unfold whereBestSW at h
   cases hfin : whereFinS r none (some (fl, fp)) with
   | error x => rw [hfin] at h; simp at h
   | ok fin =>
@@ -2918,7 +2918,7 @@ theorem whereBestS_wf (r r' : Result) (lc pc : List Col) (n : Option Nat) (fl fp
       simp only [Except.ok.injEq] at h
       subst h
       exact ⟨⟨hs.filter _, restrict_uniqueIds fin _ hu,
-        idxWF_filter (fun t => (keptByBestS es).contains t) fin.ints hs hw,
+        idxWF_filter (fun t => (keptByBestSW lv es).contains t) fin.ints hs hw,
         restrict_refsPresent fin _ (fun row hrow => (List.mem_filter.mp hrow).1) hrefs⟩, restrict_allReferenced fin _⟩
 
 /-- the level `where_best` keeps in a cell has the best mean of the cell -/
@@ -2954,6 +2954,80 @@ theorem bestLevelS_some (cands : List Cand) (h : cands ≠ []) : ∃ c, bestLeve
     rw [hc2] at this
     simp at this
   exact ⟨_, List.getLast?_eq_getLast hne⟩
+
+
+
+theorem filterBest_eq_spec (r : Result) (lc pc : List Col) (n : Option Nat) (fl fp : List Col) (hwf : WF r) :
+    filterBest r lc pc n fl fp = whereBestS r lc pc n fl fp := filterBest_eq_specW sortLv r lc pc n fl fp hwf
+
+theorem whereBestS_wf (r r' : Result) (lc pc : List Col) (n : Option Nat) (fl fp : List Col) (hwf : WF r)
+    (h : whereBestS r lc pc n fl fp = .ok r') : WF r' ∧ AllReferenced r' := whereBestS_wfW sortLv r r' lc pc n fl fp hwf h
+
+
+
+theorem isMaxScore_perm (cands cands' : List Cand) (h : cands.Perm cands') (c : Cand) :
+    isMaxScore cands c = isMaxScore cands' c := by
+  simp only [isMaxScore]
+  have : ∀ (b : Bool), (cands.all (fun c' => decide (c'.2.1 ≤ c.2.1)) = b) ↔ (cands'.all (fun c' => decide (c'.2.1 ≤ c.2.1)) = b) := by
+    intro b
+    cases b
+    · simp only [List.all_eq_false]
+      constructor
+      · rintro ⟨x, hx, hp⟩; exact ⟨x, h.mem_iff.mp hx, hp⟩
+      · rintro ⟨x, hx, hp⟩; exact ⟨x, h.mem_iff.mpr hx, hp⟩
+    · simp only [List.all_eq_true]
+      constructor
+      · intro hh x hx; exact hh x (h.mem_iff.mpr hx)
+      · intro hh x hx; exact hh x (h.mem_iff.mp hx)
+  cases hb : cands.all (fun c' => decide (c'.2.1 ≤ c.2.1))
+  · exact ((this false).mp hb).symm
+  · exact ((this true).mp hb).symm
+
+/-- with a single best level the walking order of the levels does not matter -/
+theorem bestLevelS_perm (cands cands' : List Cand) (h : cands.Perm cands') (hu : UniqueMax cands) :
+    (bestLevelS cands).map (·.1) = (bestLevelS cands').map (·.1) := by
+  cases h1 : bestLevelS cands with
+  | none =>
+    cases h2 : bestLevelS cands' with
+    | none => rfl
+    | some c' =>
+      exfalso
+      have hne : cands ≠ [] := by
+        intro hc; subst hc
+        have := (bestLevelS_mem cands' c' h2).1
+        rw [h.symm.mem_iff] at this; simp at this
+      obtain ⟨c, hc⟩ := bestLevelS_some cands hne
+      rw [hc] at h1; cases h1
+  | some c =>
+    have hc := bestLevelS_mem cands c h1
+    have hne : cands' ≠ [] := by
+      intro hcc; subst hcc
+      have := h.mem_iff.mp hc.1; simp at this
+    obtain ⟨c', h2⟩ := bestLevelS_some cands' hne
+    rw [h2]
+    have hc' := bestLevelS_mem cands' c' h2
+    simp only [Option.map_some, Option.some.injEq]
+    apply hu c hc.1 c' (h.mem_iff.mpr hc'.1)
+    · simp only [isMaxScore, List.all_eq_true, decide_eq_true_eq]; exact hc.2
+    · rw [isMaxScore_perm cands cands' h]
+      simp only [isMaxScore, List.all_eq_true, decide_eq_true_eq]; exact hc'.2
+
+theorem levelScoresW_perm (lv1 lv2 : List BEnt → List Key) (cell : List BEnt) (h : (lv1 cell).Perm (lv2 cell)) :
+    (levelScoresW lv1 cell).Perm (levelScoresW lv2 cell) := by
+  unfold levelScoresW
+  exact h.map _
+
+/-- the set `where_best` keeps does not depend on the order in which the levels are walked (sorted or, for
+values of mixed type, table order) as long as every cell has a single level of best mean -/
+theorem keptByBestSW_order_independent (lv1 lv2 : List BEnt → List Key) (es : List BEnt)
+    (hperm : ∀ e ∈ es, (lv1 (cellOfEnt es e)).Perm (lv2 (cellOfEnt es e)))
+    (hu : ∀ e ∈ es, UniqueMax (levelScoresW lv1 (cellOfEnt es e))) :
+    keptByBestSW lv1 es = keptByBestSW lv2 es := by
+  unfold keptByBestSW
+  congr 1
+  apply List.filter_congr
+  intro e he
+  rw [bestLevelS_perm _ _ (levelScoresW_perm lv1 lv2 _ (hperm e he)) (hu e he)]
 
 
 /-- along any chain of `where_fin`, `where` and `where_best` calls the (repaired) code follows the specification -/
@@ -3034,11 +3108,19 @@ theorem sideVals_eq (r : Result) (sel : List (Tbl × Option Nat × Int)) (pc : L
   unfold sideVals
   rw [allEntries_eq (applySel r sel) pc x span _ (fun g hg => (runs_spec _ g hg).1)]
 
+theorem sideValsAll_eq (r : Result) (pc : List Col) (x : XSpec) (span : Option Nat)
+    (sels : List (List (Tbl × Option Nat × Int))) :
+    sideValsAll allEntries r pc x span sels = sideValsAll allEntriesS r pc x span sels := by
+  induction sels with
+  | nil => rfl
+  | cons sel sels ih => simp only [sideValsAll, sideVals_eq, ih]
+
 /-- `raw_contrast` pairs up exactly the directly computed averages -/
-theorem rawContrast_eq_spec (r : Result) (sel1 sel2 : List (Tbl × Option Nat × Int)) (pc : List Col) (x : XSpec)
-    (span : Option Nat) : rawContrast r sel1 sel2 pc x span = rawContrastS r sel1 sel2 pc x span := by
+theorem rawContrast_eq_spec (r : Result) (sels1 sels2 : List (List (Tbl × Option Nat × Int))) (pc : List Col) (x : XSpec)
+    (span : Option Nat) (strX : Bool) :
+    rawContrast r sels1 sels2 pc x span strX = rawContrastS r sels1 sels2 pc x span strX := by
   unfold rawContrast rawContrastS rawContrastWith
-  rw [sideVals_eq, sideVals_eq]
+  rw [sideValsAll_eq, sideValsAll_eq]
 
 theorem insertS_not_mem (D : List ((Key × Key) × Rat)) (k : Key × Key) (v : Rat) (h : k ∉ D.map (·.1)) :
     insertS D k v = D ++ [(k, v)] := by
@@ -3116,6 +3198,219 @@ theorem window_sum_dyadic' (k B : Nat) (vs : List Rat) (h : ∀ x ∈ vs, Dyadic
   obtain ⟨m, hm, hb⟩ := sumL_dyadic k B (window span i vs) (fun x hx => h x (mem_window span i vs x hx))
   refine ⟨m, hm, hb.trans ?_⟩
   exact Nat.mul_le_mul_right B (length_window_le span i vs)
+
+
+/-! ## Part 10: the result of `where_fin` is completely paired -/
+
+
+theorem lookup_filter (rows : List PRow) (P : PRow → Bool) (id : Nat) (p : PRow)
+    (h : lookup rows id = .ok p) (hp : P p = true) : lookup (rows.filter P) id = .ok p := by
+  induction rows with
+  | nil => simp [lookup] at h
+  | cons r rs ih =>
+    simp only [lookup] at h
+    by_cases hid : r.id = id
+    · rw [if_pos hid] at h
+      cases h
+      rw [List.filter_cons, if_pos hp]
+      simp [lookup, hid]
+    · rw [if_neg hid] at h
+      rw [List.filter_cons]
+      split
+      · simp only [lookup, if_neg hid]; exact ih h
+      · exact ih h
+
+/-- the index entries of a sub-result: restricting the parameter tables to rows that pass `P*` and the evaluations to
+those that pass `q` restricts the index list, provided the rows the kept evaluations refer to pass -/
+theorem mkIndexes_filter (r r' : Result) (lc pc : List Col) (q : Triple → Bool)
+    (he : ∀ id p, lookup r.envs id = .ok p → (∃ t, q t = true ∧ t.1 = id) → lookup r'.envs id = .ok p)
+    (hl : ∀ id p, lookup r.lrns id = .ok p → (∃ t, q t = true ∧ t.2.1 = id) → lookup r'.lrns id = .ok p)
+    (hv : ∀ id p, lookup r.evals id = .ok p → (∃ t, q t = true ∧ t.2.2 = id) → lookup r'.evals id = .ok p) :
+    ∀ (ts : List Triple) (ix : List Idx), mkIndexes r lc pc ts = .ok ix →
+      mkIndexes r' lc pc (ts.filter q) = .ok (ix.filter (fun i => q i.t)) := by
+  intro ts
+  induction ts with
+  | nil => intro ix h; simp only [mkIndexes] at h; cases h; simp [mkIndexes]
+  | cons t ts ih =>
+    intro ix h
+    simp only [mkIndexes] at h
+    cases h1 : lookup r.envs t.1 with
+    | error x => simp [h1] at h
+    | ok e =>
+      cases h2 : lookup r.lrns t.2.1 with
+      | error x => simp [h1, h2] at h
+      | ok l =>
+        cases h3 : lookup r.evals t.2.2 with
+        | error x => simp [h1, h2, h3] at h
+        | ok v =>
+          simp only [h1, h2, h3] at h
+          cases h4 : keyOf e l v t pc with
+          | error x => simp [h4] at h
+          | ok pk =>
+            cases h5 : keyOf e l v t lc with
+            | error x => simp [h4, h5] at h
+            | ok lk =>
+              simp only [h4, h5] at h
+              cases h6 : mkIndexes r lc pc ts with
+              | error x => simp [h6] at h
+              | ok rest =>
+                simp only [h6, Except.ok.injEq] at h
+                subst h
+                have := ih rest h6
+                rw [List.filter_cons]
+                by_cases hq : q t = true
+                · rw [if_pos hq]
+                  simp only [mkIndexes, he t.1 e h1 ⟨t, hq, rfl⟩, hl t.2.1 l h2 ⟨t, hq, rfl⟩, hv t.2.2 v h3 ⟨t, hq, rfl⟩, h4, h5, this]
+                  simp [List.filter_cons, hq]
+                · rw [if_neg hq, this]
+                  simp [List.filter_cons, hq]
+
+theorem completeGroup_prop (ix : List Idx) (k : Key) : completeGroup ix k = true ↔
+    ∀ lv ∈ levelsOf ix, ((ix.filter (fun j => decide (j.p = k))).filter (fun j => decide (j.l = lv))).length = 1 := by
+  simp [completeGroup]
+
+/-- within the kept evaluations every pairing group is still whole and complete -/
+theorem complete_after_filter (ix : List Idx) :
+    ((ix.filter (fun i => completeGroup ix i.p)).all
+      (fun i => completeGroup (ix.filter (fun i => completeGroup ix i.p)) i.p)) = true := by
+  rw [List.all_eq_true]
+  intro i hi
+  rw [List.mem_filter] at hi
+  obtain ⟨hi1, hc⟩ := hi
+  have hgroup : (ix.filter (fun j => completeGroup ix j.p)).filter (fun j => decide (j.p = i.p)) =
+      ix.filter (fun j => decide (j.p = i.p)) := by
+    rw [List.filter_filter]
+    apply List.filter_congr
+    intro j _
+    by_cases hj : j.p = i.p
+    · simp [hj, hc]
+    · simp [hj]
+  have hc' := (completeGroup_prop ix i.p).mp hc
+  rw [completeGroup_prop]
+  intro lv hlv
+  rw [hgroup]
+  apply hc' lv
+  simp only [levelsOf, mem_dedup, List.mem_map] at hlv ⊢
+  obtain ⟨j, hj, hjl⟩ := hlv
+  exact ⟨j, (List.mem_filter.mp hj).1, hjl⟩
+
+
+/-- after the pairing step of `where_fin` every pairing group of the result holds exactly one evaluation for every
+level of the result — for every well-formed Result, any `l`/`p` columns, duplicate cells and several evaluators included -/
+theorem whereFinS_pairingComplete (r r' : Result) (lc pc : List Col) (hs : SortedIds r.ints)
+    (h : whereFinS r none (some (lc, pc)) = .ok r') : pairingComplete r' lc pc = .ok true := by
+  unfold whereFinS at h
+  simp only at h
+  cases hix : mkIndexes r lc pc ((runs r.ints).map (·.1)) with
+  | error x => rw [hix] at h; simp at h
+  | ok ix =>
+    rw [hix] at h
+    simp only [Except.ok.injEq] at h
+    subst h
+    obtain ⟨hmap, _⟩ := mkIndexes_spec r lc pc _ ix hix
+    have hnd_t : (ix.map (·.t)).Nodup := by rw [hmap]; exact runs_nodup _ hs
+    have hinj : ∀ i ∈ ix, ∀ j ∈ ix, i.t = j.t → i = j := List.inj_on_of_nodup_map hnd_t
+    have hQ : ∀ i ∈ ix, ((keptTriplesS ix).contains i.t = true ↔ completeGroup ix i.p = true) := by
+      intro i hi
+      rw [List.contains_eq_mem, decide_eq_true_eq]
+      simp only [keptTriplesS, List.mem_map, List.mem_filter]
+      constructor
+      · rintro ⟨j, ⟨hj, hc⟩, hjt⟩
+        rw [← hinj j hj i hi hjt]; exact hc
+      · intro hc; exact ⟨i, ⟨hi, hc⟩, rfl⟩
+    have hrow : ∀ t, (keptTriplesS ix).contains t = true → ∃ row ∈ groupPIntsS r.ints ix, row.triple = t := by
+      intro t ht
+      have ht' : t ∈ keptTriplesS ix := by simpa using ht
+      simp only [keptTriplesS, List.mem_map, List.mem_filter] at ht'
+      obtain ⟨i, ⟨hi, _⟩, rfl⟩ := ht'
+      have : i.t ∈ (runs r.ints).map (·.1) := by rw [← hmap]; exact List.mem_map.mpr ⟨i, hi, rfl⟩
+      obtain ⟨g, hg, hgt⟩ := List.mem_map.mp this
+      obtain ⟨row, hrow, hrt⟩ := mem_runs_triple _ g hg
+      refine ⟨row, ?_, by rw [hrt, hgt]⟩
+      unfold groupPIntsS
+      exact List.mem_filter.mpr ⟨hrow, by rw [hrt, hgt]; exact ht⟩
+    have hruns : (runs (restrictTables r (groupPIntsS r.ints ix)).ints).map (·.1) =
+        ((runs r.ints).map (·.1)).filter (fun t => (keptTriplesS ix).contains t) := by
+      simp only [restrictTables, groupPIntsS]
+      rw [runs_filter (fun t => (keptTriplesS ix).contains t) r.ints hs, List.filter_map]
+      rfl
+    unfold pairingComplete
+    rw [hruns, mkIndexes_filter r (restrictTables r (groupPIntsS r.ints ix)) lc pc (fun t => (keptTriplesS ix).contains t) ?_ ?_ ?_ _ ix hix]
+    · simp only
+      have hf : ix.filter (fun i => (keptTriplesS ix).contains i.t) = ix.filter (fun i => completeGroup ix i.p) := by
+        apply List.filter_congr
+        intro i hi
+        cases h1 : (keptTriplesS ix).contains i.t <;> cases h2 : completeGroup ix i.p <;> simp_all
+      rw [hf, complete_after_filter]
+    · intro id p hl ⟨t, hq, hid⟩
+      obtain ⟨row, hrow, hrt⟩ := hrow t hq
+      apply lookup_filter _ _ _ _ hl
+      simp only [List.contains_eq_mem, decide_eq_true_eq]
+      exact List.mem_map.mpr ⟨row, hrow, by rw [(lookup_ok hl).2, ← hid, ← hrt]; rfl⟩
+    · intro id p hl ⟨t, hq, hid⟩
+      obtain ⟨row, hrow, hrt⟩ := hrow t hq
+      apply lookup_filter _ _ _ _ hl
+      simp only [List.contains_eq_mem, decide_eq_true_eq]
+      exact List.mem_map.mpr ⟨row, hrow, by rw [(lookup_ok hl).2, ← hid, ← hrt]; rfl⟩
+    · intro id p hl ⟨t, hq, hid⟩
+      obtain ⟨row, hrow, hrt⟩ := hrow t hq
+      apply lookup_filter _ _ _ _ hl
+      simp only [List.contains_eq_mem, decide_eq_true_eq]
+      exact List.mem_map.mpr ⟨row, hrow, by rw [(lookup_ok hl).2, ← hid, ← hrt]; rfl⟩
+
+
+theorem runs_globalN_k (ints : List IRow) (n : Nat) (hn : 1 ≤ n) (hs : SortedIds ints) (hw : IdxWF ints) :
+    ∀ g ∈ runs (globalNIntsS ints (.k n)), g.2.length = n := by
+  have heq : globalNIntsS ints (.k n) = (cutRuns ints (fun g => !decide (g.2.length < n)) n).flatMap (·.2) := by
+    unfold globalNIntsS
+    simp only
+    rw [cutRuns, flatMap_filter_map]
+    apply List.flatMap_congr
+    intro g _
+    by_cases hl : g.2.length < n <;> simp [hl]
+  rw [heq, (cutRuns_wf ints _ n hn hs hw).1]
+  intro g hg
+  simp only [cutRuns, List.mem_map, List.mem_filter] at hg
+  obtain ⟨g0, ⟨_, hl⟩, rfl⟩ := hg
+  simp only [Bool.not_eq_true', decide_eq_false_iff_not, not_lt] at hl
+  simp only [List.length_take]
+  omega
+
+/-- the documented contract of `where_fin(n=k,l,p)`, as `whereFinJ` states it, indeed yields "a Result where an `l`
+exists for every `p` and all `p` have `n` interactions": every pairing group of the result has exactly one evaluation per
+level, and every evaluation has exactly `k` interactions -/
+theorem whereFinJ_complete (r r' : Result) (m : Nat) (lc pc : List Col) (hwf : WF r)
+    (h : whereFinJ r (some (.k (m + 1))) (some (lc, pc)) = .ok r') :
+    pairingComplete r' lc pc = .ok true ∧ ∀ g ∈ runs r'.ints, g.2.length = m + 1 := by
+  unfold whereFinJ at h
+  simp only at h
+  cases h1 : whereFinS r (some (.k (m + 1))) none with
+  | error x => rw [h1] at h; simp at h
+  | ok r1 =>
+    rw [h1] at h
+    simp only at h
+    obtain ⟨hwf1, _⟩ := whereFinS_wf r r1 _ none hwf h1
+    refine ⟨whereFinS_pairingComplete r1 r' lc pc hwf1.1 h, ?_⟩
+    have hr1 : r1.ints = globalNIntsS r.ints (.k (m + 1)) := by
+      unfold whereFinS at h1
+      simp only [Except.ok.injEq] at h1
+      rw [← h1]
+      rfl
+    have hlen1 : ∀ g ∈ runs r1.ints, g.2.length = m + 1 := by
+      rw [hr1]
+      exact runs_globalN_k r.ints (m + 1) (by omega) hwf.1 hwf.2.2.1
+    unfold whereFinS at h
+    simp only at h
+    cases hix : mkIndexes r1 lc pc ((runs r1.ints).map (·.1)) with
+    | error x => rw [hix] at h; simp at h
+    | ok ix =>
+      rw [hix] at h
+      simp only [Except.ok.injEq] at h
+      subst h
+      intro g hg
+      simp only [restrictTables, groupPIntsS] at hg
+      rw [runs_filter (fun t => (keptTriplesS ix).contains t) r1.ints hwf1.1] at hg
+      exact hlen1 g (List.mem_filter.mp hg).1
 
 
 /-! ## primed statements referenced by `Props/C18.lean` -/
